@@ -1,0 +1,67 @@
+//go:build verif
+
+package multi
+
+// Contracts for the deductive verifier in /verif (govc). Only compiled with -tags verif.
+// Rows are seen through the interface model of package seq (ghost fields rowStart/rowLen of the row object).
+
+// rows(m): the alignment holds non-nil rows that are pairwise distinct objects.
+//@ spec rows(m *Multi) bool = m != nil && (forall k int :: 0 <= k && k < len(m.Seq) ==> m.Seq[k] != nil)
+//@       && (forall i int, j int :: 0 <= i && i < j && j < len(m.Seq) ==> ref(m.Seq[i]) != ref(m.Seq[j]))
+
+// Start: the least row start (MaxInt for an empty alignment).
+//@ func (*Multi).Start
+//@   property C05 C07
+//@   requires rows(m)
+//@   ensures [lower]    forall k int :: 0 <= k && k < len(m.Seq) ==> result <= rowStart(m.Seq[k])
+//@   ensures [attained] len(m.Seq) > 0 ==> exists k int :: 0 <= k && k < len(m.Seq) && result == rowStart(m.Seq[k])
+//@   assigns nothing
+//@   loop 1 invariant 0 <= idx && idx <= len(m.Seq) && rows(m)
+//@   loop 1 invariant forall k int :: 0 <= k && k < idx ==> start <= rowStart(m.Seq[k])
+//@   loop 1 invariant idx > 0 ==> exists k int :: 0 <= k && k < idx && start == rowStart(m.Seq[k])
+//@   loop 1 invariant idx == 0 ==> start == util.MaxInt
+
+// End: the greatest row end.
+//@ func (*Multi).End
+//@   property C05 C07
+//@   requires rows(m)
+//@   ensures [upper]    forall k int :: 0 <= k && k < len(m.Seq) ==> result >= rowStart(m.Seq[k]) + rowLen(m.Seq[k])
+//@   ensures [attained] len(m.Seq) > 0 ==> exists k int :: 0 <= k && k < len(m.Seq) && result == rowStart(m.Seq[k]) + rowLen(m.Seq[k])
+//@   assigns nothing
+//@   loop 1 invariant 0 <= idx && idx <= len(old(m.Seq)) && rows(old(m))
+//@   loop 1 invariant forall k int :: 0 <= k && k < idx ==> end >= rowStart(old(m.Seq)[k]) + rowLen(old(m.Seq)[k])
+//@   loop 1 invariant idx > 0 ==> exists k int :: 0 <= k && k < idx && end == rowStart(old(m.Seq)[k]) + rowLen(old(m.Seq)[k])
+//@   loop 1 invariant idx == 0 ==> end == util.MinInt
+
+// RevComp mirrors every row about the alignment's span: a row that ended d positions before the end of the
+// span starts d positions after its start. Verified inlined into the lemma below, which names the span.
+//@ func (*Multi).RevComp
+//@   property C05
+//@   inline
+//@   loop 1 invariant 0 <= idx && idx <= len(m.Seq) && rows(m) && m.Seq == old(m.Seq)
+//@   loop 1 invariant forall k int :: 0 <= k && k < len(m.Seq) ==> rowLen(m.Seq[k]) == old(rowLen(m.Seq[k]))
+//@   loop 1 invariant forall k int :: 0 <= k && k < idx ==> rowStart(m.Seq[k]) == start + end - old(rowStart(m.Seq[k]) + rowLen(m.Seq[k]))
+//@   loop 1 invariant forall k int :: idx <= k && k < len(m.Seq) ==> rowStart(m.Seq[k]) == old(rowStart(m.Seq[k]))
+//@   loop 1 assigns rowStart(*), rowLetters(*)
+
+//@ func verifLemmaRevCompMirrors
+//@   property C05
+//@   lemma
+//@   requires rows(m)
+//@   ensures [mirrored] forall k int :: 0 <= k && k < len(m.Seq) ==> rowStart(m.Seq[k]) == s + e - old(rowStart(m.Seq[k]) + rowLen(m.Seq[k]))
+//@   ensures [lengths]  forall k int :: 0 <= k && k < len(m.Seq) ==> rowLen(m.Seq[k]) == old(rowLen(m.Seq[k]))
+func verifLemmaRevCompMirrors(m *Multi) (s, e int) {
+	s, e = m.Start(), m.End()
+	m.RevComp()
+	return
+}
+
+// The span is determined by the rows: two observations of an unchanged alignment agree.
+//@ func verifLemmaSpanDeterministic
+//@   property C05
+//@   lemma
+//@   requires rows(m) && len(m.Seq) > 0
+//@   ensures a == b && c == d
+func verifLemmaSpanDeterministic(m *Multi) (a, b, c, d int) {
+	return m.Start(), m.Start(), m.End(), m.End()
+}
